@@ -118,8 +118,8 @@ def sortStrs (l : List String) : List String := l.foldr insertSorted []
 def showDict (d : Dict) : String :=
   ",".intercalate (sortStrs (d.map (fun p => showKey p.1 ++ "=" ++ showVal p.2)))
 
-def showObjects (s : Store) : String :=
-  ",".intercalate (sortStrs (s.options.map (fun p =>
+def showObjects (s : Store) (probes : List Key) : String :=
+  ",".intercalate (sortStrs ((s.options.filter (fun p => probes.any (fun k => k.name == p.1.name))).map (fun p =>
     match s.heap[p.2]? with
     | some o => showKey p.1 ++ "=" ++ showVal o.value ++ "^" ++ boolStr o.yielding ++ "^" ++ boolStr o.parent.isSome ++
         "^" ++ boolStr (s.isProjectOption p.1) ++ "^" ++ boolStr (s.moduleOptions.contains p.1)
@@ -128,7 +128,7 @@ def showObjects (s : Store) : String :=
 def showState (s : Store) (probes : List Key) : String :=
   ",".intercalate (probes.map (fun k => showRes showVal (getValueFor s k))) ++ "#" ++
   showDict s.augments ++ "#" ++ showDict s.pending ++ "#" ++ showDict s.pendingSub ++ "#" ++
-  ",".intercalate (sortStrs (s.subprojects.map encodeStr)) ++ "#" ++ showObjects s
+  ",".intercalate (sortStrs (s.subprojects.map encodeStr)) ++ "#" ++ showObjects s probes
 
 def showOut : Out → String
   | .none => "ok"
